@@ -48,6 +48,9 @@ fn main() {
         "C06" => main_for::<props::c06::C06>(rest),
         "C07" => main_for::<props::c07::C07>(rest),
         "C08" => main_for::<props::c08::C08>(rest),
+        "C09" => main_for::<props::c09::C09>(rest),
+        "C10" => main_for::<props::c10::C10>(rest),
+        "C11" => main_for::<props::c11::C11>(rest),
         "C18" => {
             props::c18::self_check();
             main_for::<props::c18::C18>(rest)
